@@ -114,8 +114,9 @@ def validate(case):
                 if b & w or (case["platform"] == "ios" and (w == R.ALL1 or not R.is_contiguous(w))) or len(R.nc_bits(w)) > 4:
                     raise Invalid()
         elif sec["s"] == "intf":
-            if not sec.get("name") or " " in sec["name"]:
-                raise Invalid()
+            parts = (sec.get("name") or "").split(" ")
+            if not parts[0] or len(parts) > 2 or (len(parts) == 2 and parts[1] not in ("point-to-point", "multipoint")):
+                raise Invalid()  # a sub-interface heading may carry its link type
             for name, direction in sec.get("bind") or []:
                 if direction not in ("in", "out") or not name or " " in name:
                     raise Invalid()
@@ -312,7 +313,8 @@ def config_st(draw, tier):
     # names that are prefixes, suffixes and inner parts of one another (a filter must match the whole name)
     acl_names = draw(st.one_of(
         st.just(["A1", "B-2", "c.3", "110"][:nacl]),
-        st.lists(st.sampled_from(["A1", "xA1", "A1x", "1", "10", "110", "B-2", "OOB-2", "B-2-in", "c.3", "c", "MGMT", "OOB-MGMT"]),
+        st.lists(st.sampled_from(["A1", "xA1", "A1x", "1", "10", "110", "B-2", "OOB-2", "B-2-in", "c.3", "c", "MGMT", "OOB-MGMT",
+                                  "standard-mgmt", "extended-vty-in", "standard_snmp", "LONG-" + "abcdefghij" * 8]),
                  min_size=nacl, max_size=nacl, unique=True)))
     sections = []
     for name in acl_names:
@@ -341,7 +343,9 @@ def config_st(draw, tier):
         bind = []
         for direction in draw(st.lists(st.sampled_from(["in", "out"]), max_size=2, unique=True)):
             bind.append([draw(st.sampled_from(acl_names + acl_names + ["UNDEFINED"])), direction])
-        sections.append({"s": "intf", "name": f"Ethernet1/{i + 1}", "bind": bind, "ind": draw(st.integers(1, 4)),
+        iname = draw(st.sampled_from([f"Ethernet1/{i + 1}", f"Ethernet1/{i + 1}", f"Serial0/0/{i}.100 point-to-point",
+                                      f"ATM0/{i}.1 multipoint", f"Vlan{i + 10}", f"port-channel{i + 1}.5"]))
+        sections.append({"s": "intf", "name": iname, "bind": bind, "ind": draw(st.integers(1, 4)),
                          "extra": draw(st.lists(st.sampled_from(["ip address 10.1.1.1 255.255.255.0", "no shutdown",
                                                                  "description uplink", "ip access-group"]), max_size=3)),
                          "pos": draw(st.integers(0, 3))})
